@@ -93,7 +93,8 @@ def scan(text):
 
 # ---------------------------------------------------------------- generator
 
-LITS = ["'plain'", '"dq"', "'it''s'", '"a!b"', "'c & d'", '"x // y"', "'say \"hi\"'", '"e&"', "'!'", '""', "'&'"]
+LITS = ["'plain'", '"dq"', "'it''s'", '"a!b"', "'c & d'", '"x // y"', "'say \"hi\"'", '"e&"', "'!'", '""', "'&'",
+        "'x &! y'", '"fast &   ! furious"', "'a&!'", '"& !"', "'!&'", '"a ! b & c ! d"', "'&&'", "'! $omp'"]
 COMMENTS = ["! comment", "!comment & more", "! it's \"quoted\"", "!! double", "!   ", "! & ampersand &"]
 SENTINELS = ["!$omp parallel", "!$omp end parallel", "!$acc kernels", "!$acc end kernels", "!$ x = 2", "!dir$ ivdep", "!dec$ novector", "!$OMP BARRIER"]
 
